@@ -488,11 +488,26 @@ class Backend(threading.Thread):
         self.name = name
         self.log = log
         self.labels = labels or {}
-        self.lsock = socket.socket()
-        self.lsock.setsockopt(socket.SOL_SOCKET, socket.SO_REUSEADDR, 1)
-        self.lsock.bind(('127.0.0.1', port))
-        self.lsock.listen(128)
+        for attempt in range(8):
+            self.lsock = socket.socket()
+            if port:
+                self.lsock.setsockopt(socket.SOL_SOCKET, socket.SO_REUSEADDR, 1)
+            try:
+                # (two sockets with SO_REUSEADDR may be given the same free port by bind(0); the second listen() fails)
+                self.lsock.bind(('127.0.0.1', port))
+                # (set after the port was chosen: the sessions accepted here inherit it, which lets listener_up() bind
+                # the port again while they are still open)
+                self.lsock.setsockopt(socket.SOL_SOCKET, socket.SO_REUSEADDR, 1)
+                self.lsock.listen(128)
+                break
+            except OSError:
+                self.lsock.close()
+                if port or attempt == 7:
+                    raise
         self.port = self.lsock.getsockname()[1]
+        self.listen_up = threading.Event()
+        self.listen_up.set()
+        self.relisten = False
         self.mode = 'ok'            # ok | refuse | hang_startup | md5
         self.md5_password = None
         self.auth_rows = None       # rows returned for an auth_query (usename, passwd)
@@ -588,6 +603,7 @@ class Backend(threading.Thread):
 
     def stop(self):
         self.stopping = True
+        self.listen_up.set()
         self.hang_release.set()
         self.hold_release.set()
         try:
@@ -596,12 +612,43 @@ class Backend(threading.Thread):
             pass
         self.kill_connections()
 
+    def listener_down(self):
+        """Stop accepting: connection attempts are refused; established sessions go on."""
+        self.listen_up.clear()
+        self.relisten = True
+        try:
+            self.lsock.shutdown(socket.SHUT_RDWR)    # wakes the accept() of the listener thread
+        except OSError:
+            pass
+        self.lsock.close()
+
+    def listener_up(self):
+        for attempt in range(100):
+            ls = socket.socket()
+            ls.setsockopt(socket.SOL_SOCKET, socket.SO_REUSEADDR, 1)
+            try:
+                ls.bind(('127.0.0.1', self.port))
+                ls.listen(128)
+                break
+            except OSError:
+                ls.close()
+                if attempt == 99:
+                    raise
+                time.sleep(0.02)
+        self.lsock = ls
+        self.listen_up.set()
+
     def run(self):
         while not self.stopping:
             try:
                 c, _ = self.lsock.accept()
             except OSError:
-                return
+                if self.stopping or not self.relisten:
+                    return
+                self.listen_up.wait(10.0)
+                if not self.listen_up.is_set():
+                    return
+                continue
             c.setsockopt(socket.IPPROTO_TCP, socket.TCP_NODELAY, 1)
             self.nconn += 1
             serial = self.nconn
